@@ -403,3 +403,153 @@ def live_matcher(program: Program):
                     if qv and evv:
                         return callee, qv, evv, None
     raise AnalysisError("the in-memory matcher (check_event) neither loops over its filters nor maps a helper over them")
+
+
+# --------------------------------------------------------------------------
+# shared rule: a coroutine-returning call used as a bare statement is an effect that never happens
+
+KNOWN_COROUTINES = {"asyncio.sleep", "asyncio.wait", "asyncio.gather", "asyncio.wait_for"}
+
+
+def _async_only_names(program: Program) -> set:
+    kinds: dict = {}
+    for m in program.modules.values():
+        if m.rel.startswith("<dep>"):
+            continue
+        for n in ast.walk(m.tree):
+            if isinstance(n, (ast.FunctionDef, ast.AsyncFunctionDef)):
+                kinds.setdefault(n.name, set()).add(isinstance(n, ast.AsyncFunctionDef) and not any(isinstance(y, (ast.Yield, ast.YieldFrom)) for y in walk_no_nested(n)))
+    return {k for k, v in kinds.items() if v == {True}}
+
+
+def rule_awaited(program: Program, ctx, prop: str, anchors: list) -> None:
+    """``<prop>.awaited``: inside the property's anchor functions, and at every call of one of them anywhere in the
+    package, a statement-level call of a coroutine function (all definitions of that method name in the package are
+    ``async def``; or the same receiver.method is awaited elsewhere in the same class / function; or a known asyncio
+    coroutine) is awaited - a bare ``self.post_save(...)`` only creates a coroutine object: the effect the property
+    relies on silently does not happen."""
+    from .core import call_name, walk_no_nested, finding_at, qual_of
+
+    rid = ctx.rule(f"{prop}.awaited", "no forgotten await: statement-level calls of coroutine functions in the property's anchor functions (and calls of those functions "
+                   "anywhere in the package) are awaited, otherwise the effect (write, broadcast, notification, close) never happens", floor=0)
+    fns = [program.func_opt(q) for q in anchors]
+    fns = [f for f in fns if f is not None and not f._module.rel.startswith("<dep>")]
+    anchor_ids = {id(f) for f in fns}
+    anchor_names = {f.name for f in fns if isinstance(f, ast.AsyncFunctionDef)}
+    async_only = _async_only_names(program)
+    for m in program.modules.values():
+        if m.rel.startswith("<dep>"):
+            continue
+        # receiver.method texts awaited per class / per function
+        for fn in [n for n in ast.walk(m.tree) if isinstance(n, (ast.FunctionDef, ast.AsyncFunctionDef))]:
+            cls = getattr(fn, "_class", None)
+            scope = cls if cls is not None else fn
+            awaited_self = {call_name(a.value) for a in ast.walk(scope) if isinstance(a, ast.Await) and isinstance(a.value, ast.Call) and call_name(a.value).startswith("self.")}
+            if cls is not None:
+                # self.<attr>(…) awaited by a sibling class of the same family (e.g. self.validate_event in DBStorage / LMDBStorage)
+                ci = program.classes.get(f"{m.name}:{cls.name}")
+                fam = {}
+                for root in (program.mro(ci) if ci is not None else []):
+                    for sub in program.subclasses(root):
+                        fam[sub.qual] = sub
+                for sub in fam.values():
+                    awaited_self |= {call_name(a.value) for a in ast.walk(sub.node) if isinstance(a, ast.Await) and isinstance(a.value, ast.Call)
+                                     and call_name(a.value).startswith("self.") and call_name(a.value).count(".") == 1}
+            awaited_local = {call_name(a.value) for a in walk_no_nested(fn) if isinstance(a, ast.Await) and isinstance(a.value, ast.Call) and call_name(a.value) and not call_name(a.value).startswith("self.")}
+            for s in walk_no_nested(fn):
+                if not (isinstance(s, ast.Expr) and isinstance(s.value, (ast.Call, ast.Await))):
+                    continue
+                c = s.value.value if isinstance(s.value, ast.Await) else s.value
+                if not isinstance(c, ast.Call):
+                    continue
+                nm = call_name(c)
+                if not nm:
+                    continue
+                last = nm.split(".")[-1]
+                relevant = id(fn) in anchor_ids or last in anchor_names
+                if not relevant:
+                    continue
+                coroutine = (
+                    nm in KNOWN_COROUTINES
+                    or (last in async_only and (nm.startswith("self.") or "storage" in nm or "." not in nm) and (not nm.startswith("self.") or nm.count(".") == 1 or "storage" in nm))
+                    or (nm.startswith("self.") and nm in awaited_self)
+                    or (not nm.startswith("self.") and nm in awaited_local)
+                    or (last == "execute" and isinstance(fn, ast.AsyncFunctionDef) and nm.split(".")[0] in ("conn", "connection"))
+                )
+                if not coroutine:
+                    continue
+                if isinstance(s.value, ast.Await):
+                    ctx.ok(rid, s, f"`await {nm}(…)`")
+                elif isinstance(fn, ast.AsyncFunctionDef) or last in async_only:
+                    ctx.bad(finding_at(prop, rid, s, f"`{nm}(…)` returns a coroutine that is never awaited: the call has no effect"))
+
+
+# --------------------------------------------------------------------------
+# guard atoms: the conditions under which a node is evaluated (syntactic: enclosing if/elif/else, while, comprehension ifs,
+# preceding operands of and/or, conditional expressions) up to a stop node
+
+
+def guard_atoms(node, stop=None) -> list:
+    """[(expr, polarity)] - literals known to hold whenever ``node`` is evaluated, collected from the enclosing
+    branch structure between ``node`` and ``stop`` (a loop or function).  Disjunctive knowledge is kept as a single
+    literal (the whole test, polarity).  Early exits (``continue``/``return`` in a preceding sibling if) are included:
+    ``if c: continue`` before the statement contributes (c, False)."""
+    from .core import ancestors
+
+    out = []
+
+    def add(test, edge):
+        for clause in implied(test, edge):
+            if len(clause) == 1:
+                out.append(clause[0])
+            elif clause:
+                out.append((test, edge == "t"))
+
+    child = node
+    for anc in ancestors(node):
+        if anc is stop:
+            # preceding early exits at the top level of the stop node's body
+            _early_exits(anc, child, add)
+            break
+        if isinstance(anc, ast.If):
+            if any(child is s for s in anc.body):
+                add(anc.test, "t")
+            elif any(child is s for s in anc.orelse):
+                add(anc.test, "f")
+        elif isinstance(anc, ast.While):
+            if any(child is s for s in anc.body):
+                add(anc.test, "t")
+        elif isinstance(anc, ast.IfExp):
+            if child is anc.body:
+                add(anc.test, "t")
+            elif child is anc.orelse:
+                add(anc.test, "f")
+        elif isinstance(anc, ast.BoolOp):
+            idx = next((i for i, v in enumerate(anc.values) if v is child), None)
+            if idx:
+                for v in anc.values[:idx]:
+                    add(v, "t" if isinstance(anc.op, ast.And) else "f")
+        elif isinstance(anc, (ast.ListComp, ast.SetComp, ast.GeneratorExp, ast.DictComp)):
+            if child is getattr(anc, "elt", None) or child is getattr(anc, "key", None) or child is getattr(anc, "value", None):
+                for g in anc.generators:
+                    for c in g.ifs:
+                        add(c, "t")
+        elif isinstance(anc, ast.comprehension):
+            pass
+        if isinstance(anc, (ast.FunctionDef, ast.AsyncFunctionDef)):
+            _early_exits(anc, child, add)
+            break
+        _early_exits(anc, child, add)
+        child = anc
+    return out
+
+
+def _early_exits(parent, child, add):
+    for field in ("body", "orelse", "finalbody"):
+        seq = getattr(parent, field, None)
+        if isinstance(seq, list) and any(child is s for s in seq):
+            for s in seq:
+                if s is child:
+                    break
+                if isinstance(s, ast.If) and not s.orelse and s.body and isinstance(s.body[-1], (ast.Continue, ast.Return, ast.Raise, ast.Break)):
+                    add(s.test, "f")
